@@ -6,6 +6,7 @@ from props import qcommon as qc
 
 class Grammar(qc.FullGrammar):
     serial_bottom = True
+    barrier_block_objects = True
     thread_kinds = [("async", 5), ("basync", 1), ("sync", 4), ("bsync", 2), ("aaw", 1), ("baaw", 1), ("gasync", 1), ("await", 5), ("work", 1),
                     ("suspend", 1), ("resume", 1), ("retarget", 2)]
 
